@@ -48,6 +48,7 @@ func checkC14(c *checkCtx) int {
 		NTHashes   []uint64          `json:"nontrivial_hashes"`
 		ProbeCases []json.RawMessage `json:"probe_cases"`
 		ClassMixes map[string]int    `json:"class_mix_histogram"`
+		EnvRuns    int               `json:"environment_fault_runs"`
 		Sentinels  []struct {
 			Case  json.RawMessage `json:"case"`
 			Pair  json.RawMessage `json:"pair"`
@@ -86,6 +87,7 @@ func checkC14(c *checkCtx) int {
 				tot.PathSens += s.PathSens
 				tot.Decisions += s.Decisions
 				tot.Steps += s.Steps
+				tot.EnvRuns += s.EnvRuns
 				for k, n := range s.ByFamily {
 					tot.ByFamily[k] += n
 				}
@@ -183,6 +185,7 @@ func checkC14(c *checkCtx) int {
 		"class_mix_histogram": tot.ClassMixes,
 		"fault_kinds_fired": map[string]int{
 			"map_order_permutation_decisions": tot.Decisions,
+			"clock_jump_or_random_seed_runs":  tot.EnvRuns,
 		},
 		"cross_process_sentinels": map[string]interface{}{"cases": len(sentinel), "executions": sentinelRuns, "note": "the same seeded cases are executed by every worker process; their outcome classes must agree"},
 		"uncontrolled_probe": map[string]interface{}{
